@@ -118,6 +118,7 @@ type RPCPlan struct {
 		Before bool   // cancel before invoking instead
 	}
 	NoOutgoingMD   bool // do not attach any outgoing metadata (not even sim-rpc)
+	Bare           bool // no request metadata at all: no outgoing metadata, no credentials (at most one such RPC per run: its handler recognises it by the missing sim-rpc key)
 	UnaryViaStream bool // drive a unary method through NewStream
 	StartGate      int  // caller waits for this gate before starting (0 = none)
 	StartDelay     time.Duration
@@ -296,12 +297,16 @@ var TestDesc = grpc.ServiceDesc{
 	Metadata: "sim.proto",
 }
 
-func rpcIDFromContext(ctx context.Context) int {
+func rpcIDFromContext(w *World, ctx context.Context) int {
 	md, _ := metadata.FromIncomingContext(ctx)
 	if v := md.Get("sim-rpc"); len(v) > 0 {
 		if n, err := strconv.Atoi(v[0]); err == nil {
 			return n
 		}
+	}
+	// the one RPC of the run that carries no request metadata
+	if w != nil && w.bareSet {
+		return w.bareID
 	}
 	return -1
 }
@@ -336,7 +341,7 @@ type hstream struct {
 
 func unaryHandler(srv any, ctx context.Context, dec func(any) error, _ grpc.UnaryServerInterceptor) (any, error) {
 	ts := srv.(*TestServer)
-	rpc := rpcIDFromContext(ctx)
+	rpc := rpcIDFromContext(ts.W, ctx)
 	h := &hstream{ts: ts, rpc: rpc, ctx: ctx, dec: dec, plan: ts.W.Plans[rpc]}
 	simrt.Emit(simrt.Event{Kind: EvHandlerStart, A: int64(rpc), S: "/sim.Test/Unary", P: handlerInfo(ts, ctx, "/sim.Test/Unary")})
 	err := h.run(ShapeUnary)
@@ -358,7 +363,7 @@ func unaryHandler(srv any, ctx context.Context, dec func(any) error, _ grpc.Unar
 func streamHandler(srv any, ss grpc.ServerStream, shape int) error {
 	ts := srv.(*TestServer)
 	ctx := ss.Context()
-	rpc := rpcIDFromContext(ctx)
+	rpc := rpcIDFromContext(ts.W, ctx)
 	h := &hstream{ts: ts, rpc: rpc, ctx: ctx, ss: ss, plan: ts.W.Plans[rpc]}
 	simrt.Emit(simrt.Event{Kind: EvHandlerStart, A: int64(rpc), S: shapeMethods[shape], P: handlerInfo(ts, ctx, shapeMethods[shape])})
 	err := h.run(shape)
@@ -618,7 +623,11 @@ func (w *World) RunCaller(parent context.Context, cc grpc.ClientConnInterface, p
 	if p.GrpcTimeout != "" || p.timeoutClass != "" {
 		md.Append("grpc-timeout", p.GrpcTimeout)
 	}
-	if !p.NoOutgoingMD {
+	if p.Bare {
+		w.mu.Lock()
+		w.bareSet, w.bareID = true, p.ID
+		w.mu.Unlock()
+	} else if !p.NoOutgoingMD {
 		ctx = metadata.NewOutgoingContext(ctx, md)
 	}
 	var cancel context.CancelFunc
